@@ -31,9 +31,17 @@ LAYOUTS = {
     "shiftchord": [M(["LEFTSHIFT", "A"], ["LEFTSHIFT", "B"]), M(["S"], ["S"], S(["C"]))],
     # no mappings: everything passes through (many keys held at once)
     "passthru": [],
+    # a key that a no-repeat mapping taps (pressed and released in ONE write) is also the repeat key of another mapping
+    "tapchord": [M(["A"], ["C"], D), M(["B"], ["D"], S(["C"], 4, 2))],
 }
 # a burst of nine different keys going down at once (then e.g. the tablet switch turns on: one release batch of nine events)
 NINE = ["P:1", "P:2", "P:3", "P:4", "P:5", "P:6", "P:7", "P:8", "P:9"]
+
+
+# larger bursts: seventeen and sixty-five different keys going down at once (writers or loops that cut batches into pieces of 16, 63 or 64 records)
+_MANY = [str(d) for d in range(1, 10)] + ["0"] + list("QWERTYUIOPASDFGHJKLZXCVBNM") + ["F%d" % i for i in range(1, 25)] + ["MINUS", "EQUAL", "TAB", "ENTER", "SPACE"]
+SEVENTEEN = ["P:" + k for k in _MANY[:17]]
+SIXTYFIVE = ["P:" + k for k in _MANY[:65]]
 
 
 def ev(s):
@@ -44,12 +52,12 @@ def ev(s):
 GEN = {
     ("C10", "quick"): [("basic", ["P:A", "R:A"], 3, 1, 1, 0), ("basic", ["P:A", "R:A"], 3, 0, 1, 1), ("basic", ["P:A", "R:A", "P:S"], 4, 0, 0, 0),
                        ("norep", ["P:LEFTSHIFT", "P:A", "R:A"], 3, 0, 0, 1), ("absorb", ["P:C", "P:A", "P:B"], 3, 0, 0, 0),
-                       ("basic", ["P:A", "P:S"], 1, 1, 0, 0, 20), ("basic", ["P:A", "R:A"], 1, 0, 1, 0, 40), ("passthru", ["R:1"], 1, 1, 0, 0, NINE)],
+                       ("basic", ["P:A", "P:S"], 1, 1, 0, 0, 20), ("basic", ["P:A", "R:A"], 1, 0, 1, 0, 40), ("passthru", ["R:1"], 1, 1, 0, 0, NINE), ("passthru", ["R:1"], 1, 1, 0, 0, SIXTYFIVE)],
     ("C10", "thorough"): [("basic", ["P:A", "R:A", "P:S"], 3, 1, 1, 1), ("basic", ["P:A", "R:A"], 4, 1, 1, 0), ("basic", ["P:A", "R:A", "P:S", "R:S"], 5, 0, 0, 0),
                           ("norep", ["P:LEFTSHIFT", "P:A", "R:A", "P:S"], 4, 0, 1, 1), ("absorb", ["P:C", "P:A", "P:B", "R:C"], 4, 0, 0, 0),
                           ("chord", ["P:LEFTCTRL", "P:K", "P:A"], 3, 1, 1, 0), ("basic", ["P:A", "P:S"], 2, 1, 0, 0, 20), ("basic", ["P:A", "R:A"], 1, 0, 1, 1, 70),
                           ("norep", ["P:LEFTSHIFT", "P:A"], 2, 0, 0, 0, 33)],
-    ("C11", "quick"): [("rollover", ["P:A", "P:S", "R:A"], 3, 0, 2, 0), ("basic", ["P:S", "R:S"], 3, 1, 2, 0), ("chord", ["P:LEFTCTRL", "P:K", "R:K"], 3, 0, 2, 0), ("empty-chord", ["P:S", "P:A", "P:B"], 3, 0, 2, 0),
+    ("C11", "quick"): [("tapchord", ["P:A", "R:A", "P:B"], 3, 0, 2, 0), ("rollover", ["P:A", "P:S", "R:A"], 3, 0, 2, 0), ("basic", ["P:S", "R:S"], 3, 1, 2, 0), ("chord", ["P:LEFTCTRL", "P:K", "R:K"], 3, 0, 2, 0), ("empty-chord", ["P:S", "P:A", "P:B"], 3, 0, 2, 0),
                        ("norep", ["P:LEFTSHIFT", "P:S", "P:D"], 3, 0, 2, 0)],
     ("C11", "thorough"): [("rollover", ["P:A", "P:S", "R:A", "R:S"], 4, 0, 3, 0), ("basic", ["P:S", "R:S", "P:A"], 3, 1, 3, 0), ("chord", ["P:LEFTCTRL", "P:K", "R:K", "R:LEFTCTRL"], 4, 0, 2, 0), ("chord", ["P:LEFTCTRL", "P:K"], 2, 2, 2, 0),
                           ("empty-chord", ["P:S", "P:A", "P:B", "R:B"], 4, 0, 2, 0), ("norep", ["P:LEFTSHIFT", "P:S", "P:D", "R:LEFTSHIFT"], 4, 0, 2, 0),
@@ -57,15 +65,15 @@ GEN = {
     ("C12", "quick"): [("shiftchord", ["P:LEFTSHIFT", "P:A", "R:LEFTSHIFT"], 3, 1, 0, 0), ("passthru", ["R:1"], 1, 1, 0, 0, NINE), ("basic", ["P:A", "R:A"], 2, 2, 0, 0), ("basic", ["P:S"], 1, 2, 2, 0), ("chord", ["P:LEFTCTRL", "P:K"], 2, 1, 1, 0), ("basic", ["P:A", "R:A"], 3, 1, 0, 0)],
     ("C12", "thorough"): [("shiftchord", ["P:LEFTSHIFT", "P:A", "R:LEFTSHIFT", "R:A"], 3, 2, 0, 0), ("passthru", ["R:1", "P:A"], 2, 2, 0, 0, NINE), ("basic", ["P:A", "R:A"], 3, 2, 0, 0), ("basic", ["P:S", "R:S"], 2, 2, 2, 0), ("chord", ["P:LEFTCTRL", "P:K", "R:LEFTCTRL"], 2, 2, 1, 0),
                           ("basic", ["P:A", "R:A"], 2, 3, 0, 0), ("norep", ["P:LEFTSHIFT", "P:A", "R:LEFTSHIFT"], 2, 2, 1, 0)],
-    ("C20", "quick"): [("basic", ["P:A", "P:S"], 2, 1, 1, 0), ("chord", ["P:LEFTCTRL", "P:K"], 2, 1, 1, 0), ("passthru", ["R:1"], 1, 1, 0, 0, NINE)],
-    ("C20", "thorough"): [("passthru", ["R:1", "P:A"], 2, 2, 0, 0, NINE), ("basic", ["P:A", "R:A", "P:S"], 3, 1, 1, 1), ("chord", ["P:LEFTCTRL", "P:K", "R:K"], 3, 1, 2, 0), ("norep", ["P:LEFTSHIFT", "P:A", "P:S"], 3, 1, 1, 0)],
+    ("C20", "quick"): [("basic", ["P:A", "P:S"], 2, 1, 1, 0), ("chord", ["P:LEFTCTRL", "P:K"], 2, 1, 1, 0), ("passthru", ["R:1"], 1, 1, 0, 0, NINE), ("passthru", ["R:1"], 1, 1, 0, 0, SEVENTEEN)],
+    ("C20", "thorough"): [("passthru", ["R:1", "P:A"], 2, 2, 0, 0, NINE), ("passthru", ["R:1"], 1, 1, 0, 0, SEVENTEEN), ("passthru", ["R:1"], 1, 1, 0, 0, SIXTYFIVE), ("basic", ["P:A", "R:A", "P:S"], 3, 1, 1, 1), ("chord", ["P:LEFTCTRL", "P:K", "R:K"], 3, 1, 2, 0), ("norep", ["P:LEFTSHIFT", "P:A", "P:S"], 3, 1, 1, 0)],
 }
 # C06 at the loop (see ALIAS): a running repeat, held keys and chords across tablet-mode changes
-GEN[("C06", "quick")] = [("basic", ["P:S"], 1, 2, 2, 0), ("shiftchord", ["P:LEFTSHIFT", "P:A", "R:LEFTSHIFT"], 3, 1, 0, 0), ("chord", ["P:LEFTCTRL", "P:K"], 2, 1, 1, 0)]
+GEN[("C06", "quick")] = [("tapchord", ["P:A", "R:A", "P:B"], 3, 2, 1, 0), ("basic", ["P:S"], 1, 2, 2, 0), ("shiftchord", ["P:LEFTSHIFT", "P:A", "R:LEFTSHIFT"], 3, 1, 0, 0), ("chord", ["P:LEFTCTRL", "P:K"], 2, 1, 1, 0)]
 GEN[("C06", "thorough")] = GEN[("C12", "thorough")]
 # C18 at the real driver (see ALIAS): large batches - nine keys released at once by the tablet switch, bursts of pass-through events
-GEN[("C18", "quick")] = [("passthru", ["R:1"], 1, 1, 0, 0, NINE), ("basic", ["P:A", "R:A"], 1, 1, 0, 0, 20)]
-GEN[("C18", "thorough")] = [("passthru", ["R:1", "P:A"], 2, 2, 0, 0, NINE), ("basic", ["P:A", "R:A"], 2, 1, 0, 0, 40)]
+GEN[("C18", "quick")] = [("passthru", ["R:1"], 1, 1, 0, 0, NINE), ("basic", ["P:A", "R:A"], 1, 1, 0, 0, 20), ("passthru", ["R:1"], 1, 1, 0, 0, SIXTYFIVE)]
+GEN[("C18", "thorough")] = [("passthru", ["R:1", "P:A"], 2, 2, 0, 0, NINE), ("basic", ["P:A", "R:A"], 2, 1, 0, 0, 40), ("passthru", ["R:1", "P:A"], 2, 1, 0, 0, SIXTYFIVE), ("passthru", ["R:1"], 1, 1, 0, 0, SEVENTEEN)]
 # random (simulated) behaviours at larger bounds
 SIM = {
     "C10": [("basic", ["P:A", "R:A", "P:S", "R:S"], 6, 1, 1, 1), ("absorb", ["P:C", "P:A", "R:A", "P:B", "R:C"], 6, 1, 0, 1)],
@@ -130,7 +138,14 @@ def schedules_of(run):
 
 def generate(res, wd, prop, tier):
     cfgs = GEN[(prop, tier)]
-    runs = [gen_run(wd, i, c, 4) for i, c in enumerate(cfgs)]
+    # a configuration with a very large burst (65 events in one arrival) is explored by simulation: its behaviours are long (one read per event) and
+    # it is there for the size of the batches, not for the interleavings
+    def big(c):
+        return len(c) > 6 and isinstance(c[6], list) and len(c[6]) > 20
+    runs = [gen_run(wd, i, c, 4 if not big(c) else 1, simulate=(120, 600) if big(c) else None) for i, c in enumerate(cfgs)]
+    for r, c in zip(runs, cfgs):
+        if big(c):
+            r.extra += ["-seed", "11"]
     sims = []
     # longer random behaviours of the same specification (TLC -simulate): histories of up to 6 events with up to 3 tablet events and 3 time-outs,
     # beyond what is enumerated exhaustively. The quick tier uses a fixed seed (its verdict never varies), the thorough tier VERIF_SEED.
@@ -148,18 +163,23 @@ def generate(res, wd, prop, tier):
         if r.invariant_violated():
             res.tool_errors.append("design-level invariant %s of Loop.tla is violated in configuration %s (the specification itself is wrong): see %s" % (r.invariant_violated(), c, r.name))
             continue
-        if err and r not in sims:
+        if err and r not in sims and not big(c):
             res.tool_errors.append("%s: %s" % (r.name, err))
             continue
         g, d = r.counts()
         gen, dist = gen + g, dist + d
         seen = set()
+        mine = []
         for s in schedules_of(r):
             key = json.dumps(s)
             if key in seen:
                 continue
             seen.add(key)
-            cases.append({"id": "%s-%d" % (r.name, len(seen)), "lname": c[0], "layout": LAYOUTS[c[0]], "sched": s, "sleep": "no", "faults": 0})
+            mine.append({"id": "%s-%d" % (r.name, len(seen)), "lname": c[0], "layout": LAYOUTS[c[0]], "sched": s, "sleep": "no", "faults": 0})
+        # a very large burst is there for the size of the batches, not for where the tablet event falls among its 65 reads: an even sample of its schedules
+        if len(c) > 6 and isinstance(c[6], list) and len(c[6]) > 20 and len(mine) > 150:
+            mine = mine[::len(mine) // 150][:150]
+        cases += mine
     log("[tlc] Loop.tla: %d configurations model-checked (%d states, %d distinct), %d schedules, %.1fs" % (len(runs), gen, dist, len(cases), time.time() - t0))
     return cases, gen, dist
 
